@@ -281,6 +281,40 @@ Definition SrcTie_case (c : c18_in * res c18_obs) : N :=
         "eval": None,
     },
 }
+SOURCE_TIES["C11"] = {
+    "targets": ["error_containers.go:" + f for f in ("NewErrorContainer", "AddError", "AddErrorList", "Errors")],
+    "generated": "Generated/ErrContSrc.v",
+    "proofs": ["Proofs/ErrContSrcTie.v"],
+    "theorems": ["c11_source_is_model", "c11_source_container", "c11_source_container_nil"],
+    # container cases: the history run on the translated functions, Errors() after every step
+    # (slices are values in the translation: the re-read after the caller overwrote its slice
+    # is predicted equal to the first read)
+    "eval": """From Tab Require Import Run.Glue Run.C11Run Base.GoSem.
+From SrcTie Require Import Generated.ErrContSrc.
+Definition f2r {A} (r : fres A) : res A := match r with Done x => x | OutOfFuel => Panic end.
+Definition src_step (c : cont) (o : cop) : res cont :=
+  match o with
+  | OpAdd e => f2r (src_AddError c e)
+  | OpAddList el => f2r (src_AddErrorList c el)
+  | OpErrors => bind (f2r (src_Errors c)) (fun _ => Ok c)
+  | OpAddSelf => bind (f2r (src_Errors c)) (fun l => f2r (src_AddErrorList c l))
+  end.
+Fixpoint src_model (c : res cont) (ops : list cop) : list cobs :=
+  match ops with
+  | [] => []
+  | o :: r =>
+      let c' := bind c (fun c => src_step c o) in
+      bind c' (fun c' => bind (f2r (src_Errors c')) (fun l => Ok (l, l))) :: src_model c' r
+  end.
+Definition src_create (m : cmode) : res cont :=
+  match m with MNil => Ok None | MZero => Ok (Some None) | MNew => f2r src_NewErrorContainer end.
+Definition SrcTie_case (c : c11_case) : N :=
+  match c with
+  | CCont m steps => code (list_eqb cobs_eqb (src_model (src_create m) (map fst steps)) (map snd steps)) true
+  | _ => 0%N
+  end.
+""",
+}
 TIE_LP = "SrcTie"    # logical path of the fresh copies
 
 
